@@ -9,9 +9,9 @@ add("F24","C02","fixed","unexpected-failure:rename","after an index rebuild Remo
     ops=[{"k":"mkdir","p":"/b","m":0o755},{"k":"rebuild"},{"k":"rename","p":"/b","q":"/c"},{"k":"remove","p":"/c"}], commit="entries can be moved and deleted after an index rebuild")
 add("F25","C10","fixed","hang","after a failed drive write left index and tape out of step, reading an entry whose position holds a non-regular record blocked forever (restore ended without closing the pipe)",
     ops=[{"k":"mkdir","p":"/d","m":0o755},{"k":"writefile","p":"/a","d":D(0,1)}], faults=[{"seam":"drive.write","k":4}], params={"enumerate":0}, commit="a read never waits forever")
-add("KF3","C16","open","opened-differs-from-scratch-rebuild",
-    "opening over an existing index that reflects only a prefix of the tape (stale index, e.g. after a crash between the tape append and the index update) never catches up: Initialize returns the cached root and the filesystem shows the stale prefix state, not what a rebuild of the tape shows",
-    ops=[{"k":"mkdir","p":"/d","m":0o755}], params={"enumerate":0,"cut":-1,"idx":0}, relax="stale-index-open")
+add("F39","C16","fixed","opened-differs-from-scratch-rebuild",
+    "(was KF3) opening over an existing index that reflects only a prefix of the tape (stale index, e.g. after a crash between the tape append and the index update) never catches up: Initialize returns the cached root and the filesystem shows the stale prefix state, not what a rebuild of the tape shows",
+    ops=[{"k":"mkdir","p":"/d","m":0o755}], params={"enumerate":0,"cut":-1,"idx":0}, commit="opening a filesystem catches its index up with the tape")
 def addfile(id,prop,status,oracle,what,relax=None,commit=None,also=None):
     fn=f"findings/{id}.json"
     c=json.load(open("/verif/"+fn))
